@@ -55,6 +55,7 @@ UNITS = {
     'DEENTRY': dict(template='deentry.rs', rlimit=30),
     'SERENTRY': dict(template='serentry.rs', rlimit=30),
     'DESCDISPATCH': dict(template='descdispatch.rs', rlimit=30),
+    'WIRELAYOUT': dict(template='wirelayout.rs', rlimit=30),
 }
 
 VARW = 'PROVED for every value (units SERSTR + READERS): strings, symbols and binaries of ANY length and content, outside and inside arrays -- the serializer writes a valid str8/str32, sym8/sym32, vbin8/vbin32 encoding whose size field counts octets ([C05.*.encoding], [C05.*.array-element]); the decoder reads both width variants by the AMQP layout and accepts every one of them from a reliable reader ([C05.*.decoding], [C05.*.every-variant-accepted]); lemma_var_round_trip joins the two: decode(encode(x) ++ rest) == x, consuming exactly the encoding; serialized_size agrees with the octets written ([C20.size.*]); compound headers are decoded to the body length and count the layout defines ([C05.compound.header-decoding])'
@@ -109,7 +110,7 @@ ENGINE = 'that the tokio engine tasks (select! loops, mpsc channels) call these 
 PROPS = {
     'C02': dict(
         probes=[dict(name='cci_session_agreement', kind='agreement', target='fe2o3_amqp::session::consecutive_chunk_indices', args=['C02.cci-session'], claim='session::consecutive_chunk_indices (iterator adapters; enters unit SESSION as an assumed contract) agrees with its oracle: a new run starts exactly where the next id is not the previous + 1', bound='every ascending sequence of <= 6 ids over {0,1,2,3,5,6,2^32-2,2^32-1} (3003 sequences), real function through the verif-hooks facade'), dict(name='cci_receiver_agreement', kind='agreement', target='fe2o3_amqp::link::receiver_link::consecutive_chunk_indices', args=['C02.cci-receiver'], claim='receiver_link::consecutive_chunk_indices agrees with its oracle: a new run starts exactly where the id is not consecutive OR the per-delivery rcv-settle-mode changes', bound='every ascending sequence of <= 6 ids over 8 values x every assignment of {unset, first, second} (1.47 M cases), real function through the verif-hooks facade')],
-        units=['SESSION', 'SENDSPLIT', 'LINK', 'LINKATTACH', 'RESUME', 'DISPOSER', 'DELIVFUT', 'RECVAPI', 'WIRING', 'ACCLINK', 'LINKAPI', 'ACCDELEG', 'TXNDELEG', 'SENDINNER'], kani=[], level='proof', title='Settlement',
+        units=['SESSION', 'SENDSPLIT', 'LINK', 'LINKATTACH', 'RESUME', 'DISPOSER', 'DELIVFUT', 'RECVAPI', 'WIRING', 'ACCLINK', 'LINKAPI', 'ACCDELEG', 'TXNDELEG', 'SENDINNER', 'WIRELAYOUT'], kani=[], level='proof', title='Settlement',
         assumptions=[ASYNC, ENGINE,
             'session::consecutive_chunk_indices and util::is_consecutive are under contract in unit SESSION (rule R34: the windows(2).enumerate().filter_map(..).collect() chain is written as the loop the std adapters perform, closure body verbatim); the agreement probe cci_session_agreement still runs the real function against an independent oracle (bounded)',
             'ReceiverLink::dispose_all (batch disposal: sort, drop what is no longer unsettled, one disposition per maximal run) and receiver_link::consecutive_chunk_indices are under contract in unit LINK (rule R34; `sort_by_key` / `retain` are stand-ins taking the closures as the code has them); the agreement probe cci_receiver_agreement still runs the real run splitter against an independent oracle (bounded)',
@@ -124,7 +125,7 @@ PROPS = {
             dict(name='rt_array_of_zero_width', kind='agreement', target='serde_amqp::{to_vec,from_slice}::<Value>', args=['C03.array-of-zero-width'],
                  claim='the same round trip for the values in which an array of two or more zero-width elements (null, empty list) occurs', bound='30 values (as above, restricted to that class)'),
         ],
-        units=['SERHDR', 'SERSTR', 'SERFIX', 'READERS', 'MESSAGE', 'SEQACCESS', 'VALUESER', 'ANYDISPATCH', 'DEENTRY', 'SERENTRY', 'DESCDISPATCH'], kani=K_RT, level='proof', title='Codec round trip (fixed- and variable-width primitives, compound headers)',
+        units=['SERHDR', 'SERSTR', 'SERFIX', 'READERS', 'MESSAGE', 'SEQACCESS', 'VALUESER', 'ANYDISPATCH', 'DEENTRY', 'SERENTRY', 'DESCDISPATCH', 'WIRELAYOUT'], kani=K_RT, level='proof', title='Codec round trip (fixed- and variable-width primitives, compound headers)',
         lemmas={'READERS': ['lemma_var_round_trip', 'lemma_be32_inverse', 'lemma_be64_inverse', 'lemma_fixed_round_trip_u64', 'lemma_fixed_round_trip_u32', 'lemma_fixed_round_trip_u8', 'lemma_fixed_round_trip_i32', 'lemma_fixed_round_trip_i64'], 'MESSAGE': ['lemma_message_round_trip', 'lemma_run', 'lemma_fold_concat', 'lemma_fold_opt']},
         assumptions=[VARW,
             'PROVED for every value: the fixed-width primitives listed in the obligations (Kani harnesses, loop-free / fully unwound over the full domain) and the compound header writers (Verus)',
@@ -137,7 +138,7 @@ PROPS = {
                 dict(name='spec_defaults_of_elided_fields', kind='agreement', target='serde_amqp::from_slice~fe2o3_amqp_types-composites', args=['C05.spec-defaults'],
                      claim='a composite whose defaulted fields are elided (list0, short list) or sent as null decodes to the defaults of the SPECIFICATION, written out in the probe (header: durable false, priority 4, first-acquirer false, delivery-count 0; open: max-frame-size 4294967295, channel-max 65535; begin: handle-max 4294967295; attach: snd-settle-mode mixed, rcv-settle-mode first, incomplete-unsettled false; flow: drain / echo false; transfer: more / aborted / batchable / resume false; disposition: settled / batchable false; detach: closed false; source / target: durable none, expiry-policy session-end, timeout 0, dynamic false)',
                      bound='12 reference encodings written by hand from the specification, 36 field checks (derive-macro output is outside the Verus subset)')],
-        units=['SERHDR', 'SERSTR', 'SERFIX', 'READERS', 'VALUESER', 'MESSAGE', 'SEQACCESS', 'ANYDISPATCH', 'DEENTRY', 'SERENTRY', 'DESCDISPATCH'], kani=K_RT + K_DEC, level='proof', title='Valid encodings / every variant accepted (fixed- and variable-width primitives, compound headers)',
+        units=['SERHDR', 'SERSTR', 'SERFIX', 'READERS', 'VALUESER', 'MESSAGE', 'SEQACCESS', 'ANYDISPATCH', 'DEENTRY', 'SERENTRY', 'DESCDISPATCH', 'WIRELAYOUT'], kani=K_RT + K_DEC, level='proof', title='Valid encodings / every variant accepted (fixed- and variable-width primitives, compound headers)',
         lemmas={'READERS': ['lemma_var_round_trip', 'lemma_be32_inverse', 'lemma_be64_inverse', 'lemma_fixed_round_trip_u64', 'lemma_fixed_round_trip_u32', 'lemma_fixed_round_trip_u8', 'lemma_fixed_round_trip_i32', 'lemma_fixed_round_trip_i64']},
         assumptions=[VARW,
             'PROVED for every value: the fixed-width primitives listed in the obligations (Kani harnesses, loop-free / fully unwound over the full domain) and the compound header writers (Verus)',
@@ -178,7 +179,7 @@ PROPS = {
                      'allocation is modelled at the request sites that take a length from the wire (vec![0u8; n], Vec::resize): their stand-ins carry the bound as a precondition; Vec growth inside read_to_end/push/append is std-amortised and proportional to the bytes appended; String::from_utf8(buf) reuses buf',
                      'the stream behind IoReader is an arbitrary byte source that may fail at any point; fewer than 2^64 bytes pass through a reader']),
     'C19': dict(
-        units=['FRAMEDEC', 'SASLNEG', 'SASLMECH', 'HEADERS', 'HDRCODEC', 'FRAMEENC'], kani=K_SASL, level='proof', title='SASL (listener loop, PLAIN and SCRAM mechanisms, SCRAM client and client loop under contract; crypto and string library calls uninterpreted)',
+        units=['FRAMEDEC', 'SASLNEG', 'SASLMECH', 'HEADERS', 'HDRCODEC', 'FRAMEENC', 'WIRELAYOUT'], kani=K_SASL, level='proof', title='SASL (listener loop, PLAIN and SCRAM mechanisms, SCRAM client and client loop under contract; crypto and string library calls uninterpreted)',
         level_text='Under Verus contracts: (1) the listener negotiation loop (acceptor/connection.rs negotiate_sasl_with_framed: an AMQP connection is negotiated only after an outcome with code OK was produced by the mechanism and sent; anything else ends in Err); (2) the listener mechanisms: PLAIN (validate_credential / validate_init / on_init / on_response: OK only for the configured user name and password, byte for byte) and SCRAM (ScramVersion::compute_server_final_message, ScramAuthenticator::compute_server_final_message, on_init, on_response: OK only when H(proof XOR HMAC(StoredKey, AuthMessage)) == StoredKey for the user and the combined nonce of this exchange); (3) the SCRAM client (ScramVersion::{compute_client_final_message, validate_server_final, compute_server_signature, compute_client_proof}, auth_message, without_proof, client_final, ScramClient::{compute_client_final_message, validate_server_final}, SaslProfile::on_frame) and the client negotiation loop Builder::negotiate_sasl: Ok only on an outcome frame with code OK, and for a SCRAM profile only if that outcome carries HMAC(ServerKey(password, salt, i), AuthMessage) over an exchange whose server-first message was received as a challenge and whose nonce extends the client nonce; (4) the SASL frame decoder (any body yields Ok or Err, a non-SASL frame type is refused). HMAC/SHA/PBKDF2/XOR, base64 and the str operations are uninterpreted functions. In addition the PLAIN validator is checked by Kani on the real fe2o3-amqp crate for every initial response up to 7 bytes against an independent oracle -- a BOUNDED stand-in listed under bounded_obligations, not counted as proved.',
         assumptions=[
             'cryptographic primitives (hmac, h, h_i/compute_salted_password, xor), base64 encode/decode, str::{split, strip_prefix, starts_with, parse}, from_utf8, the NUL-split iterator and bytes::BufMut on Vec<u8> are stand-ins with uninterpreted results: the contracts say WHICH values are compared and hashed, not that HMAC is unforgeable',
@@ -190,7 +191,7 @@ PROPS = {
             'PLAIN does not check that init.mechanism == PLAIN and ignores fields after the third NUL (observed, not part of the property)']),
     'C06': dict(
         probes=[COMPOSITE_VARIANTS],
-        units=['FRAMEENC', 'FRAMEDEC', 'CONNENG', 'TRANSPORT', 'HDRCODEC', 'SASLNEG', 'HEADERS', 'READERS', 'BUILDER'], kani=[], level='proof', title='Frames on the wire',
+        units=['FRAMEENC', 'FRAMEDEC', 'CONNENG', 'TRANSPORT', 'HDRCODEC', 'SASLNEG', 'HEADERS', 'READERS', 'BUILDER', 'WIRELAYOUT'], kani=[], level='proof', title='Frames on the wire',
         lemmas={'HDRCODEC': ['lemma_header_round_trip'], 'FRAMEENC': ['lemma_expected_properties', 'lemma_cut_points', 'lemma_mids_payload', 'lemma_mids_sizes', 'lemma_flatten_append', 'lemma_payloads_append']},
         assumptions=[
             'precondition fits(): the transfer performative alone (in each of its three forms) is smaller than the frame body; a larger one is outside the contract (usize underflow / no progress)',
@@ -199,13 +200,13 @@ PROPS = {
             'a NON-transfer performative whose encoding exceeds the frame is refused with FramingError since fix 542518b ([C06.transport.non-transfer-whole]); nothing establishes that the engines handle that error gracefully (the connection engine treats it as a transport error)',
             'decoding under arbitrary read fragmentation is tokio_util LengthDelimitedCodec + FramedRead (third party), not verified']),
     'C01': dict(
-        units=['FRAMEENC', 'SESSION', 'SENDSPLIT', 'LINK', 'REASM', 'SESSENG', 'CONNENG', 'RESUME', 'BYTEREADER', 'WIRING', 'ACCLINK', 'LINKAPI', 'READERS', 'ACCDELEG', 'TXNDELEG', 'SENDINNER', 'SESSWIRING', 'LINKFLOW', 'CONNWIRING'],
+        units=['FRAMEENC', 'SESSION', 'SENDSPLIT', 'LINK', 'REASM', 'SESSENG', 'CONNENG', 'RESUME', 'BYTEREADER', 'WIRING', 'ACCLINK', 'LINKAPI', 'READERS', 'ACCDELEG', 'TXNDELEG', 'SENDINNER', 'SESSWIRING', 'LINKFLOW', 'CONNWIRING', 'WIRELAYOUT'],
         lemmas={'SENDSPLIT': ['lemma_link_expected', 'lemma_link_mids'], 'FRAMEENC': ['lemma_expected_properties', 'lemma_mids_payload']}, kani=[], level='proof', title='End-to-end delivery (sequential stages only)',
         assumptions=[ASYNC, ENGINE,
             'only the sequential stages are under contract: session hold-back/stamping (SESSION) and frame splitting (FRAMEENC); link-level split, reassembly and the codec round trip are separate units where built',
             'mpsc hand-offs, engine select! loops, credit/window liveness under scheduling, and all configurations x schedules are NOT decided']),
     'C08': dict(
-        units=['LINKFLOW', 'SENDSPLIT', 'PRODUCER', 'ACCSESS', 'SESSION', 'WIRING', 'ACCLINK', 'LINK', 'TXNDELEG'], kani=[], level='proof', title='Sender link credit',
+        units=['LINKFLOW', 'SENDSPLIT', 'PRODUCER', 'ACCSESS', 'SESSION', 'WIRING', 'ACCLINK', 'LINK', 'TXNDELEG', 'WIRELAYOUT'], kani=[], level='proof', title='Sender link credit',
         lemmas={'LINKFLOW': ['lemma_c08_consume_preserves_limit', 'lemma_c08_flow_establishes_limit']},
         assumptions=[ASYNC,
             'NOT DECIDED: "a send waiting for credit completes however the grant races with the wait" (notified().await vs notify_waiters is a two-task schedule property; no thread model in either verifier)',
@@ -213,14 +214,14 @@ PROPS = {
             'SenderLink::send_payload is under contract in unit SENDSPLIT with get_delivery_tag_or_detached (the tokio::select! between consume(1) and the detach notification) as a stand-in: one credit per delivery, no transfer without a credit',
             'TryConsume::try_consume (transaction feature) duplicates consume_link_credit and is not under contract']),
     'C09': dict(
-        units=['LINKFLOW', 'SESSION', 'LINK', 'LINKATTACH', 'REASM', 'DISPOSER', 'WIRING', 'ACCLINK', 'LINKAPI', 'ACCDELEG', 'TXNDELEG'], kani=[], level='proof', title='Receiver link credit',
+        units=['LINKFLOW', 'SESSION', 'LINK', 'LINKATTACH', 'REASM', 'DISPOSER', 'WIRING', 'ACCLINK', 'LINKAPI', 'ACCDELEG', 'TXNDELEG', 'WIRELAYOUT'], kani=[], level='proof', title='Receiver link credit',
         lemmas={'LINKFLOW': ['lemma_c09_threshold_reached_within_credit']},
         assumptions=[ASYNC,
             'parking_lot::RwLock and Arc<AtomicU32> erased: disposal concurrent with recv from another task is not modelled',
             'the overrun error being turned into a detach frame by the link/engine is not verified']),
     'C12': dict(
         probes=[COMPOSITE_VARIANTS],
-        units=['CONN', 'CONNENG', 'HEADERS', 'HDRCODEC', 'HANDLES', 'LCONNDELEG', 'SESSWIRING', 'CONNWIRING'],
+        units=['CONN', 'CONNENG', 'HEADERS', 'HDRCODEC', 'HANDLES', 'LCONNDELEG', 'SESSWIRING', 'CONNWIRING', 'WIRELAYOUT'],
         lemmas={'CONNENG': ['lemma_extc_trans']}, kani=[], level='proof', title='Connection lifecycle',
         assumptions=[ASYNC,
             'that the connection engine event loop (select!) drives only these transition functions, and calls send_open/send_close once each, is not verified',
@@ -228,13 +229,13 @@ PROPS = {
             'header-before-open (transport protocol-header exchange), a peer close always being answered, handle results, EOF handling and flushing of queued frames are liveness/glue and are NOT decided',
             'ConnectionEngine::{on_incoming,on_outgoing_session_frames,on_heartbeat,forward_to_session} are under contract (unit CONNENG) against a stand-in connection endpoint carrying the CONN contracts; close_connection / wait_for_remote_close / on_control / on_error / event_loop (select!) are not']),
     'C17': dict(
-        units=['CONN', 'CONNENG', 'FRAMEDEC', 'BUILDER', 'TRANSPORT', 'TIMERS', 'LCONNDELEG'], kani=[], level='proof', title='Negotiated limits (channel-max; idle time-out bookkeeping)',
+        units=['CONN', 'CONNENG', 'FRAMEDEC', 'BUILDER', 'TRANSPORT', 'TIMERS', 'LCONNDELEG', 'WIRELAYOUT'], kani=[], level='proof', title='Negotiated limits (channel-max; idle time-out bookkeeping)',
         assumptions=[
             'DECIDED: channel-max; the VALUES the timers are armed with (heartbeat period from the peer\'s idle-time-out, 0/unset => none; local deadline = configured idle-time-out, advertised value = half of it); one empty frame per heartbeat tick; none after the local Close. the local idle timer is restarted by every incoming item and by nothing the local side sends, and an elapsed timer is reported as IdleTimeoutElapsed (Transport::poll_next / start_send, unit TRANSPORT; the timer is a stand-in with a restart counter and an elapsed flag). NOT DECIDED: the timed behaviour itself (tokio Interval/Sleep): no clock in either verifier',
             'slab::Slab modelled as a partial map whose vacant key is unoccupied']),
     'C10': dict(
         probes=[dict(name='sections_agreement', kind='agreement', target='fe2o3_amqp::link::receiver_link::count_number_of_sections_and_offset', args=['C10.sections'], claim='count_number_of_sections_and_offset (under contract in unit REASM since session 6, with the iterator chain written as an index loop: this probe cross-checks that rewriting against the REAL function) stays within the bounds number <= len, offset <= len and, for smallulong descriptors, counts exactly the 00 53 7x headers and the distance of the last one from the end', bound='every byte string of <= 7 bytes over {00,53,70,75,78,80,01} (960 800 strings), real function through the verif-hooks facade')],
-        units=['REASM', 'LINK', 'BYTEREADER', 'READERS', 'SESSION', 'WIRING', 'ACCLINK', 'LINKFLOW'], kani=[], level='proof', title='Reassembly',
+        units=['REASM', 'LINK', 'BYTEREADER', 'READERS', 'SESSION', 'WIRING', 'ACCLINK', 'LINKFLOW', 'WIRELAYOUT'], kani=[], level='proof', title='Reassembly',
         lemmas={'REASM': ['lemma_concat_push', 'lemma_concat_one'], 'BYTEREADER': ['lemma_after_take', 'lemma_flat_drained']},
         assumptions=[ASYNC,
             'a multi-frame delivery buffers fewer than 2^32 bytes (otherwise the u32 section counter of IncompleteTransfer::append could overflow)',
@@ -243,7 +244,7 @@ PROPS = {
             'resumption: ReceiverInner::on_resuming_transfer is under contract in unit REASM (a resuming transfer for another delivery is not spliced with the buffered one); trimming the buffer to the sender\'s resume point (keep_buffer_till_section_number_and_offset) is an assumed contract (it only trims)',
             'interleaving with other links of the session is the routing contract of unit SESSION (C11.route.transfer)']),
     'C18': dict(
-        units=['TXN', 'TXNCTRL', 'TXNCOORD', 'SENDSPLIT', 'FRAMEENC', 'SESSWIRING', 'ACCSESS', 'TXNDROP', 'DESCDISPATCH'], kani=[], level='proof', title='Transactions: listener-side resource table, controller-side wire content',
+        units=['TXN', 'TXNCTRL', 'TXNCOORD', 'SENDSPLIT', 'FRAMEENC', 'SESSWIRING', 'ACCSESS', 'TXNDROP', 'DESCDISPATCH', 'WIRELAYOUT'], kani=[], level='proof', title='Transactions: listener-side resource table, controller-side wire content',
         assumptions=[ASYNC,
             'the wrapped plain session is a stand-in with a ghost `delivered` log; built as with features transaction+acceptor',
             'allocate_transaction_id: partial correctness only (the uuid retry loop has no termination argument)',
@@ -251,20 +252,20 @@ PROPS = {
             'controller side (unit TXNCTRL): declare_on_link, discharge_on_link, send_on_control_link, Transaction::discharge, OwnedTransaction::discharge, post_inner, TransactionRetirement::retire, DeliveryState::{accepted_or_else, declared_or_else} are under contract with the control link / sender / receiver as ghost-trace stand-ins and the Mutex around the control link erased; post_ref_inner and acquisition are not; the rollback-on-drop path is under contract in unit TXNDROP (rollback_on_drop, OwnedTransaction::drop; Transaction::drop uses `break` with a value and is not)',
             'the coordinator (unit TXNCOORD): on_declare, on_discharge, reject, handle_delivery_result under contract with the session requests and the receiver link as ghost-trace stand-ins', 'NOT DECIDED: the coordinator event loop (select!), abort of the remaining ids on Drop / when the controlling link goes away, several concurrent control links, freshness of a transaction id over the whole history (only among live ids)']),
     'C11': dict(
-        units=['SESSION', 'FRAMEENC', 'CONN', 'SENDSPLIT', 'CONNENG', 'ACCSESS', 'LINKATTACH', 'LINK', 'WIRING', 'ACCLINK', 'ACCDELEG', 'TXNDELEG', 'LCONNDELEG', 'SESSWIRING', 'SESSENG', 'TXN', 'CONNWIRING', 'CONVERSIONS'],
+        units=['SESSION', 'FRAMEENC', 'CONN', 'SENDSPLIT', 'CONNENG', 'ACCSESS', 'LINKATTACH', 'LINK', 'WIRING', 'ACCLINK', 'ACCDELEG', 'TXNDELEG', 'LCONNDELEG', 'SESSWIRING', 'SESSENG', 'TXN', 'CONNWIRING', 'CONVERSIONS', 'WIRELAYOUT'],
         lemmas={'SENDSPLIT': ['lemma_link_expected'], 'FRAMEENC': ['lemma_expected_properties']}, kani=[], level='proof', title='Identifiers',
         assumptions=[ASYNC, ENGINE,
             'fewer than 2^32 link handles are live in one session (handle = slab key as u32)',
             'slab::Slab is modelled as a partial map whose vacant key is unoccupied (trusted stand-in)',
             'concurrent attaches are serialised by the session engine (not verified)']),
     'C13': dict(
-        units=['SESSION', 'LINK', 'SESSENG', 'LINKDETACH', 'SENDSPLIT', 'RECVLOOP', 'LINKATTACH', 'LINKFLOW', 'ACCSESS', 'HANDLES', 'WIRING', 'ACCLINK', 'LINKAPI', 'CONN', 'ACCDELEG', 'TXNDELEG', 'LCONNDELEG', 'SESSWIRING', 'CONNWIRING', 'CONVERSIONS'],
+        units=['SESSION', 'LINK', 'SESSENG', 'LINKDETACH', 'SENDSPLIT', 'RECVLOOP', 'LINKATTACH', 'LINKFLOW', 'ACCSESS', 'HANDLES', 'WIRING', 'ACCLINK', 'LINKAPI', 'CONN', 'ACCDELEG', 'TXNDELEG', 'LCONNDELEG', 'SESSWIRING', 'CONNWIRING', 'CONVERSIONS', 'WIRELAYOUT'],
         lemmas={'SESSENG': ['lemma_ext_trans']}, kani=[], level='proof', title='Session and link lifecycles',
         assumptions=[ASYNC, ENGINE,
             '"returns only after the peer\'s answer" is decided as a safety clause (detach / close / end_session / wait_for_remote_end return Ok only once the peer\'s detach / End has been taken from the incoming channel; units LINKDETACH, SESSENG); "answered no later than the next operation" and "within bounded time" are liveness statements and are not decided',
             'Drop impls racing with the engine are not decided']),
     'C14': dict(
-        units=['CONNENG', 'SESSENG', 'LINK', 'LINKFLOW', 'SENDSPLIT', 'RECVLOOP', 'DISPOSER', 'HANDLES', 'DELIVFUT', 'WIRING', 'ACCLINK', 'CONN', 'ACCDELEG', 'TXNDELEG', 'LCONNDELEG', 'SESSWIRING', 'LINKAPI', 'SESSION', 'CONNWIRING', 'ERRCONV'], kani=[], level='proof',
+        units=['CONNENG', 'SESSENG', 'LINK', 'LINKFLOW', 'SENDSPLIT', 'RECVLOOP', 'DISPOSER', 'HANDLES', 'DELIVFUT', 'WIRING', 'ACCLINK', 'CONN', 'ACCDELEG', 'TXNDELEG', 'LCONNDELEG', 'SESSWIRING', 'LINKAPI', 'SESSION', 'CONNWIRING', 'ERRCONV', 'WIRELAYOUT'], kani=[], level='proof',
         title='Failure propagation (the safety half: WHICH error a stopped handle reports; stop reason published before the channels close)',
         assumptions=[
             'DECIDED (necessary conditions, per function): (a) the event loops of the connection and session engines publish the stop reason BEFORE they close the channels through which handles, sessions and links learn of the stop (an order obligation at the close calls), and that reason is the peer\'s Close / End error, the peer\'s plain close / end, or the connection\'s fate, as derived from the loop\'s outcome (tails of ConnectionEngine::event_loop and SessionEngine::event_loop, rule R32); (b) the result handed to the ConnectionHandle / SessionHandle is the peer\'s error when the peer supplied one; (c) every link operation under contract that finds the channel to its session closed (send_transfer, send_flow, dispose, dispose_consecutive, send_detach, recv_inner) fails with SessionStopped(reason read from the published cell) -- at once, without waiting -- and with IllegalState only when no reason was recorded',
@@ -284,7 +285,7 @@ PROPS = {
             'never-blocks-forever and isolation between connections are not decided',
             'handlers of peer input carry no precondition on the peer-controlled arguments']),
     'C07': dict(
-        units=['SESSION', 'SESSENG', 'ACCSESS', 'TXN', 'ACCDELEG', 'TXNDELEG', 'SESSWIRING'], kani=[], level='proof',
+        units=['SESSION', 'SESSENG', 'ACCSESS', 'TXN', 'ACCDELEG', 'TXNDELEG', 'SESSWIRING', 'WIRELAYOUT'], kani=[], level='proof',
         title='Session flow control',
         assumptions=[
             'the session engine calls these functions in the order frames arrive/are queued (select! loop not verified)',
